@@ -24,7 +24,7 @@ func TestVerifC06FragFile(t *testing.T) {
 	dir := filepath.Join(os.Getenv("VERIF_SCRATCH"), "fragfile")
 	os.MkdirAll(dir, 0o755)
 
-	n := r.N(4000, 600000)
+	n := r.N(4000, 160000)
 	r.Cases("file", n, func(i int, id string, rng *vk.Rand) {
 		path := filepath.Join(dir, fmt.Sprintf("frag-%d", i))
 		defer os.Remove(path)
